@@ -1,7 +1,9 @@
 """C02 — WN-LMF load/dump is a lossless round trip in every supported version (structural agreement)."""
 from __future__ import annotations
 import ast
+import re
 from ..pat import Frag
+from ..speccheck import view
 from ..src import norm, walk_no_nested, AnalysisError
 from ..consts import const, Unknown
 from ..pyutil import parents, binding_sites
@@ -385,22 +387,28 @@ def r4_metadata_tables(ctx, res):
 
 
 def r5_escaping(ctx, res):
+    """decided on the effect summaries of the writer functions: the argument of every `print(..., file=...)` is, after all
+    locals are inlined, built only from constants, module constant tables, ElementTree serialisations and quoteattr() values"""
     lmf = ctx.repo.mod('lmf')
     writer = [f for f in lmf.funcs.values() if f.name == 'dump' or f.name.startswith('_dump_')]
     n = 0
     for f in writer:
-        for node in walk_no_nested(f.node):
-            if not (isinstance(node, ast.Call) and norm(node.func) == 'print' and any(k.arg == 'file' for k in node.keywords)):
+        v = view(ctx, 'lmf', f.qualname)
+        for k, t, g, c, e in v.rows:
+            if k != 'call' or not t.startswith('print(') or 'file=' not in t:
                 continue
             n += 1
-            arg = node.args[0] if node.args else None
-            key = f'print:{f.qualname}:{norm(arg)[:50] if arg is not None else ""}'
-            kind = _safe_print_arg(ctx, f, arg)
-            res.inst(key, lmf.loc(node), kind or 'UNSAFE')
+            call = _parse_summary_expr(t)
+            arg = call.args[0] if call.args else None
+            srcarg = e.node.args[0] if isinstance(e.node, ast.Call) and e.node.args else (
+                e.node.value.args[0] if isinstance(e.node, ast.Expr) and isinstance(e.node.value, ast.Call) and e.node.value.args else None)
+            key = f'print:{f.qualname}:{norm(srcarg)[:50] if srcarg is not None else ""}'
+            kind = _safe_out(v, arg, c)
+            res.inst(key, v.loc(e), kind or 'UNSAFE')
             if kind is None:
-                res.find(key, lmf.loc(node), f'`{norm(node)[:80]}` writes a value to the output that is neither a constant, the ElementTree '
-                                             f'serialisation of an element, nor passed through quoteattr: quotes, <, & in the data break the '
-                                             f'markup or change on reload')
+                res.find(key, v.loc(e), f'`{t[:80]}` writes a value to the output that is neither a constant, the ElementTree '
+                                        f'serialisation of an element, nor passed through quoteattr: quotes, <, & in the data break the '
+                                        f'markup or change on reload')
     # ElementTree part: no manual string building of markup in the _build_* functions
     for f in lmf.funcs.values():
         if f.name.startswith('_build_') or f.name in ('_dump_lexical_entry', '_dump_synset', '_dump_dependency'):
@@ -418,95 +426,102 @@ def r5_escaping(ctx, res):
         raise AnalysisError(f'only {n} output statements found in the writer')
 
 
-def _safe_print_arg(ctx, f, arg, depth=0):
+_SYM = re.compile(r'#(\d+)')
+_LOOP = re.compile(r'\$(\d+)')
+
+
+def _parse_summary_expr(text):
+    """summary text -> ast; cell `#n` becomes the name `_cell_n`, loop variable `$k` becomes `_loop_k`"""
+    try:
+        return ast.parse(_LOOP.sub(r'_loop_\1', _SYM.sub(r'_cell_\1', text)), mode='eval').body
+    except SyntaxError as exc:
+        raise AnalysisError(f'summary text does not parse: {text[:80]}: {exc}')
+
+
+def _safe_out(v, arg, ctx_loops, keys=frozenset(), depth=0):
+    """classification of an output expression in summary form, or None when a data value can reach the output unquoted.
+    `keys`: comprehension variables known to be the key of `<mapping>.items()` (attribute names: constant keys)."""
     if arg is None:
         return 'empty'
-    if _is_const_lookup(arg):
-        return 'module constant'
+    if depth > 8:
+        return None
+    rec = lambda x, ks=keys: _safe_out(v, x, ctx_loops, ks, depth + 1)   # noqa: E731
     if isinstance(arg, ast.Constant):
         return 'constant'
-    if isinstance(arg, ast.Call):
-        fn = norm(arg.func)
-        if fn == '_tostring':
-            return 'ElementTree serialisation'
-        if isinstance(arg.func, ast.Attribute) and arg.func.attr == 'format' and isinstance(arg.func.value, ast.Constant) and depth < 4:
-            kinds = [_safe_print_arg(ctx, f, a, depth + 1) for a in list(arg.args) + [k.value for k in arg.keywords]]
-            if kinds and all(kinds):
-                return 'format of ' + ', '.join(sorted(set(kinds)))
-            return None if kinds else 'constant'
-        if _is_const_lookup(arg):
-            return 'module constant'
-        if fn.endswith('.decode') and isinstance(arg.func.value, ast.Name) and arg.func.value.id.startswith('_'):
-            return 'module constant'
-    if isinstance(arg, ast.Name) and depth < 4:
-        kinds = set()
-        for s in binding_sites(f.node, arg.id):
-            if s[0] == 'assign':
-                v = s[1]
-                if isinstance(v, ast.Call) and norm(v.func).endswith('.format') and isinstance(v.func.value, ast.Name) \
-                        and v.func.value.id.startswith('_') and all(_is_const_lookup(k.value) for k in v.keywords):
-                    kinds.add('module constant')
-                elif _is_const_lookup(v):
-                    kinds.add('module constant')
-                elif isinstance(v, ast.IfExp) and isinstance(v.body, ast.Constant) and isinstance(v.orelse, ast.Constant):
-                    kinds.add('constant choice')
-                elif isinstance(v, ast.Call) and norm(v.func).endswith('.join') and v.args and isinstance(v.args[0], ast.GeneratorExp):
-                    elt = v.args[0].elt
-                    ok = isinstance(elt, ast.JoinedStr) and all(
-                        isinstance(p, ast.Constant) or (isinstance(p, ast.FormattedValue) and (
-                            (isinstance(p.value, ast.Call) and norm(p.value.func) == 'quoteattr')
-                            or (isinstance(p.value, ast.Name) and _is_items_key(v.args[0], p.value.id))))
-                        for p in elt.values)
-                    kinds.add('quoteattr-quoted attributes' if ok else None)
-                elif isinstance(v, ast.Call) and norm(v.func).endswith('.join') and v.args and isinstance(v.args[0], ast.Name):
-                    # joined from a local list that only receives quoted `name="value"` pairs
-                    lst = v.args[0].id
-                    apps = [m for m in walk_no_nested(f.node) if isinstance(m, ast.Call) and isinstance(m.func, ast.Attribute)
-                            and m.func.attr in ('append', 'extend', 'insert') and norm(m.func.value) == lst]
-                    ok = bool(apps)
-                    for m in apps:
-                        a0 = m.args[-1] if m.args else None
-                        loopkeys = set()
-                        for p_ in parents(m):
-                            if isinstance(p_, ast.For) and isinstance(p_.target, ast.Tuple) and len(p_.target.elts) == 2 \
-                                    and isinstance(p_.target.elts[0], ast.Name) and isinstance(p_.iter, ast.Call) \
-                                    and isinstance(p_.iter.func, ast.Attribute) and p_.iter.func.attr == 'items':
-                                loopkeys.add(p_.target.elts[0].id)
-                        ok = ok and m.func.attr == 'append' and isinstance(a0, ast.JoinedStr) and all(
-                            isinstance(x, ast.Constant) or (isinstance(x, ast.FormattedValue) and (
-                                (isinstance(x.value, ast.Call) and norm(x.value.func) == 'quoteattr')
-                                or (isinstance(x.value, ast.Name) and x.value.id in loopkeys))) for x in a0.values)
-                    kinds.add('quoteattr-quoted attributes' if ok else None)
-                elif isinstance(v, ast.Constant):
-                    kinds.add('constant')
-                else:
-                    kinds.add(_safe_print_arg(ctx, f, v, depth + 1))
-            else:
-                kinds.add(None)
-        if kinds and None not in kinds:
-            return ' / '.join(sorted(kinds))
+    if _is_const_lookup(arg):
+        return 'module constant'
+    if isinstance(arg, ast.Name) and arg.id in keys:
+        return 'attribute name'
+    if isinstance(arg, ast.Subscript) and isinstance(arg.value, ast.Name) and arg.value.id.startswith('_loop_') \
+            and isinstance(arg.slice, ast.Constant) and arg.slice.value == 0:
+        k = int(arg.value.id[6:])
+        if k - 1 < len(ctx_loops) and re.search(r'\.items\(\)$', ctx_loops[k - 1]):
+            return 'attribute name'
         return None
+    if isinstance(arg, ast.IfExp):
+        a, b = rec(arg.body), rec(arg.orelse)
+        return f'choice of {a} / {b}' if a and b else None
+    if isinstance(arg, ast.BinOp) and isinstance(arg.op, (ast.Add, ast.Mult)):
+        a, b = rec(arg.left), rec(arg.right)
+        return 'constant' if a and b else None
     if isinstance(arg, ast.JoinedStr):
         parts = []
         for p in arg.values:
             if isinstance(p, ast.Constant):
                 continue
-            k = _safe_print_arg(ctx, f, p.value, depth + 1)
+            k = rec(p.value)
             if k is None:
                 return None
             parts.append(k)
         return 'f-string of ' + ', '.join(sorted(set(parts))) if parts else 'constant'
+    if isinstance(arg, ast.Call):
+        fn = norm(arg.func)
+        if fn == '_tostring':
+            return 'ElementTree serialisation'
+        if fn == 'quoteattr':
+            return 'quoteattr-quoted value'
+        if fn == 'len':
+            return 'constant'
+        if isinstance(arg.func, ast.Attribute) and arg.func.attr == 'format' and not arg.args \
+                and (_is_module_const(arg.func.value) or isinstance(arg.func.value, ast.Constant)):
+            ks = [rec(k.value) for k in arg.keywords]
+            return 'module constant' if all(ks) else None
+        if isinstance(arg.func, ast.Attribute) and arg.func.attr == 'decode' and _is_module_const(arg.func.value):
+            return 'module constant'
+        if isinstance(arg.func, ast.Attribute) and arg.func.attr == 'join' and len(arg.args) == 1 and not arg.keywords:
+            if not rec(arg.func.value):
+                return None
+            a0 = arg.args[0]
+            if isinstance(a0, (ast.GeneratorExp, ast.ListComp)):
+                ks = set(keys)
+                for gen in a0.generators:
+                    if isinstance(gen.target, ast.Tuple) and len(gen.target.elts) == 2 and isinstance(gen.target.elts[0], ast.Name) \
+                            and isinstance(gen.iter, ast.Call) and isinstance(gen.iter.func, ast.Attribute) and gen.iter.func.attr == 'items':
+                        ks.add(gen.target.elts[0].id)
+                k = rec(a0.elt, frozenset(ks))
+                return f'joined {k}' if k else None
+            if isinstance(a0, ast.Name) and a0.id.startswith('_cell_'):
+                cell = '#' + a0.id[6:]
+                kinds = set()
+                for k_, t_, g_, c_, e_ in v.rows:
+                    if k_ in ('call', 'store', 'aug', 'del') and re.search(re.escape(cell) + r'(?!\d)', t_):
+                        m = _parse_summary_expr(t_) if k_ == 'call' else None
+                        if m is not None and isinstance(m, ast.Call) and isinstance(m.func, ast.Attribute) and m.func.attr == 'append' \
+                                and norm(m.func.value) == a0.id and len(m.args) == 1:
+                            kinds.add(_safe_out(v, m.args[0], c_, keys, depth + 1))
+                        elif m is not None and isinstance(m, ast.Call) and norm(m.func) == 'print':
+                            continue
+                        else:
+                            kinds.add(None)
+                if kinds and None not in kinds:
+                    return 'joined ' + ' / '.join(sorted(kinds))
+                return None
+            return None
     return None
 
 
-def _is_items_key(gen, name):
-    """`name` is the key variable of `for name, value in <dict>.items()` (attribute names come from constant keys)"""
-    for g in gen.generators:
-        if isinstance(g.target, ast.Tuple) and len(g.target.elts) == 2 and isinstance(g.target.elts[0], ast.Name) \
-                and g.target.elts[0].id == name and isinstance(g.iter, ast.Call) and isinstance(g.iter.func, ast.Attribute) \
-                and g.iter.func.attr == 'items':
-            return True
-    return False
+def _is_module_const(v):
+    return isinstance(v, ast.Name) and v.id.startswith('_') and not v.id.startswith(('_cell_', '_loop_'))
 
 
 def _is_const_lookup(v):
